@@ -20,7 +20,7 @@ META = {
                    'draws. Observations are distinct objects with distinct symbolic payload, targets are fresh symbols, so '
                    '"is the target that arrived with this instance" is decided exactly.',
     'bounds': {'quick': {'capacity k': '1..4', 'fill level': '0..k', 'bmc_length': 'k+3 (k<=3)'},
-               'thorough': {'capacity k': '1..6', 'fill level': '0..k', 'bmc_length': 'k+4 (k<=4)'}},
+               'thorough': {'capacity k': '1..8', 'fill level': '0..k', 'bmc_length': 'k+4 (k<=4)'}},
     'outside': ['capacities beyond the bound (the step is uniform in k only by enumeration)', 'TreeStorage (C19)',
                 'random.random() returning exactly 0.0'],
     'assumptions': ['randrange returns a value of the requested range; random() a value in (0,1)',
@@ -33,7 +33,7 @@ KINDS = ['batch', 'interval', 'sequence', 'uniform', 'geometric']
 
 def configs(tier):
     cfgs = []
-    kmax = 4 if tier == 'quick' else 6
+    kmax = 4 if tier == 'quick' else 8
     for kind in KINDS:
         for tg in (True, False):
             for k in range(1, kmax + 1):
